@@ -33,6 +33,11 @@ CHECKS = {
     note="Loop counters are local to the statement in the model (the code stores and deletes them in the context; 'loop counters aside' in the property). Operations Python raises on are the poison value undef in the model; generators avoid them and drop+count such cases. The pinned tree omitted lhs-subscript and loop-bound variables from the read set and could not execute Nop / zero-trip loops: repaired by fix: commits.",
     technique="Lean 4 proof (mutual structural induction over the expression type, compositional 'Good' transformer predicate for loops) over hand-written instrumented semantics; random differential correspondence with recorded access logs",
     ref="7/C08"),
+ "C02": dict(
+    text="Lean 4 theorems for EVERY sequence of code-builder calls: (1) the bookkeeping invariant of _add_statement (last writer / readers since last write) implies that every RAW, WAW or WAR conflict between an earlier and a later statement - on guards, subscripts of either side, loop bounds, call arguments, the persistent names a non-assignment is a barrier for, and the execution-state token - is covered by a path of recorded depends_on edges; edges point backwards; (2) statements without a conflict commute (from the frame/agreement theorems of C08); (3) MAIN: executing the emitted statements in ANY permutation that respects the recorded edges yields the same store - events, failure/switch/raise status and every variable - as program order (insertion-sort argument over inversions); fresh_var_name never returns a seen name and the name joins the seen set; else_ negates the flag of the if_ closed before. Correspondence: the real CodeBuilder driven through its public API on exhaustive short and random structured programs; per emitted statement guard, kind and depends_on, and the fresh names, compared exactly. Failing-input search: all linear extensions of the REAL graph executed by the REAL interpreter methods vs. program order.",
+    note="Value semantics of arrays in the model: the real interpreter aliases on plain array assignment, which breaks the property for alias-then-element-write programs (known finding, generator avoids them, corpus entry reproduces it). CodeBuilder.assign's dispatch/parsing is exercised, not modelled. Functions are total and pure here (failing functions: C11). Structured if/else vs. flat guarded statements is the subject of C01.",
+    technique="Lean 4 proof (invariant over the builder fold, commutation from frame conditions, insertion-sort scheduling lemma) over hand-written model; differential correspondence on the public builder API; schedule enumeration oracle on the real objects",
+    ref="7/C02"),
 }
 
 NOT_APPLICABLE = {}
